@@ -481,7 +481,7 @@ META = {
             "all short strings with quotes/escapes/line breaks): equality is compared with an independent term key, hashes, kind order, "
             "string order, exceptions in comparisons; per term pickling (all protocols), copy/deepcopy and n3() read back by from_n3, the "
             "Turtle parser and the SPARQL parser. Transitivity follows because equality classes are shown to coincide with term identity.",
-    "note": "Alphabet of ~250 (quick) / ~600 (thorough) terms; literal-literal order only required not to raise; relative IRIs are not read back "
+    "note": "Alphabet of ~250 (quick) / ~600 (thorough) terms; among literals the order is only required to be asymmetric, converse to > and acyclic (3-subsets of the numeric literals + one literal per other datatype/language); relative IRIs are not read back "
             "through Turtle/SPARQL (they would be resolved against a base).",
     "technique": "exhaustive enumeration of all pairs of a colliding term alphabet against an independent term-identity oracle",
 }
